@@ -48,6 +48,33 @@ func checkC12(c *Ctx, r *Report) {
 	r.Rule("R12b", "node storage (fields.d / fields.a) is written only by methods of fields, on nodes constructed in the same function, or by the merge functions", 10)
 	nodeWriters(c, r)
 
+	// R12e: handles stay live across removals — the node's own mutators move stored values, they
+	// never replace one by a copy (a copied sub-config detaches every handle taken before)
+	r.Rule("R12e", "the methods of fields that rearrange stored values (everything except append, which takes over values from another node) never store the result of cpy: a moved sub-config keeps its identity", 5)
+	fieldsT := c.Named("", "fields")
+	fms := c.Prog.MethodSets.MethodSet(types.NewPointer(fieldsT))
+	for i := 0; i < fms.Len(); i++ {
+		fn := c.Prog.MethodValue(fms.At(i))
+		if fn == nil || fn.Synthetic != "" || fn.Blocks == nil {
+			continue
+		}
+		if fn.Name() == "append" {
+			continue
+		}
+		copies := 0
+		var pos token.Pos
+		for _, ci := range CallsIn(fn, true) {
+			if ci.Common().IsInvoke() && ci.Common().Method.Name() == "cpy" {
+				copies++
+				pos = ci.Pos()
+			}
+		}
+		if copies == 0 {
+			pos = fn.Pos()
+		}
+		r.Check(copies == 0, "R12e", c.FnName(fn), "moved values keep identity", c.Pos(pos), "no copy of a stored value", "a node mutator stores a copy of a value it already holds: for a sub-config the copy is a new *Config, so every handle obtained with Child before the operation is detached from the tree (writes through it are lost, writes through the parent are invisible to it)")
+	}
+
 	// R12c
 	r.Rule("R12c", "Remove walks with options whose env and resolvers are cleared and noParse is set, on every path", 1)
 	rm := c.Method("", "Config", "Remove")
